@@ -67,6 +67,40 @@ def writer_literal(R, fn):
     return None, None, None
 
 
+def error_type_tables(cx, inst):
+    """the HandshakeErrorType byte tables of writer and reader are inverse, and unknown bytes are refused"""
+    R = cx.R
+    # HandshakeErrorType tables
+    we = R.body(S + "write_handshake_error")
+    wfa = cx.fa(we)
+    wt = {}
+    for loc, s in we.assigns():
+        if not s["pl"]["p"] and not we.is_single_def(s["pl"]["l"]) and we.locals[s["pl"]["l"]]["ty"] == "u8":
+            e = we.rvalue_expr(s["rv"])
+            if e[0] == "const":
+                for vv in ("Version", "Config", "ServerFull"):
+                    if dnf_holds(wfa.at(loc), [[r"is\(arg1\.error,%s\)" % vv]])[0]:
+                        wt[vv] = int(e[1])
+    re_ = R.body(S + "read_handshake_error_payload")
+    rfa = cx.fa(re_)
+    rt = {}
+    for loc, s in re_.assigns():
+        if s["rv"]["k"] == "agg" and s["rv"].get("adt", "").endswith("HandshakeErrorType"):
+            for alt in (rfa.at(loc) or []):
+                for lit in alt:
+                    m = re.fullmatch(r"eq\((\d+),arg1\[4\]\)", lit)
+                    if m:
+                        rt[s["rv"]["variant"]] = int(m.group(1))
+        inst.site(we, None, "error byte table writer=%s reader=%s" % (wt, rt))
+    if wt != rt or len(wt) != 3 or len(set(wt.values())) != 3:
+        inst.violation(we.path, "HandshakeErrorType table", "writer maps %s but reader maps %s" % (wt, rt))
+    # unknown error byte -> None
+    nones = [a for loc, a in _none_returns(cx, re_)]
+    if not any(any(re.fullmatch(r"ne\(\d+,arg1\[4\]\)", l) for l in a) for a in nones):
+        inst.violation(re_.path, "unknown error byte", "read_handshake_error_payload does not reject unknown error bytes")
+
+
+
 def run(cx):
     R = cx.R
     obligations = 0
@@ -139,35 +173,8 @@ def run(cx):
                 inst.violation(rbb.path, "constructed variant", "%s constructs %s, expected Frame::%s" % (r, sorted(made), v))
         if len(disp) != len(VARIANTS):
             inst.violation(rb.path, "read dispatch", "Frame::read dispatches %d ids, expected %d" % (len(disp), len(VARIANTS)))
-        # HandshakeErrorType tables
-        we = R.body(S + "write_handshake_error")
-        wfa = cx.fa(we)
-        wt = {}
-        for loc, s in we.assigns():
-            if not s["pl"]["p"] and not we.is_single_def(s["pl"]["l"]) and we.locals[s["pl"]["l"]]["ty"] == "u8":
-                e = we.rvalue_expr(s["rv"])
-                if e[0] == "const":
-                    for vv in ("Version", "Config", "ServerFull"):
-                        if dnf_holds(wfa.at(loc), [[r"is\(arg1\.error,%s\)" % vv]])[0]:
-                            wt[vv] = int(e[1])
-        re_ = R.body(S + "read_handshake_error_payload")
-        rfa = cx.fa(re_)
-        rt = {}
-        for loc, s in re_.assigns():
-            if s["rv"]["k"] == "agg" and s["rv"].get("adt", "").endswith("HandshakeErrorType"):
-                for alt in (rfa.at(loc) or []):
-                    for lit in alt:
-                        m = re.fullmatch(r"eq\((\d+),arg1\[4\]\)", lit)
-                        if m:
-                            rt[s["rv"]["variant"]] = int(m.group(1))
+        error_type_tables(cx, inst)
         obligations += 3
-        inst.site(we, None, "error byte table writer=%s reader=%s" % (wt, rt))
-        if wt != rt or len(wt) != 3 or len(set(wt.values())) != 3:
-            inst.violation(we.path, "HandshakeErrorType table", "writer maps %s but reader maps %s" % (wt, rt))
-        # unknown error byte -> None
-        nones = [a for loc, a in _none_returns(cx, re_)]
-        if not any(any(re.fullmatch(r"ne\(\d+,arg1\[4\]\)", l) for l in a) for a in nones):
-            inst.violation(re_.path, "unknown error byte", "read_handshake_error_payload does not reject unknown error bytes")
 
     # ---------------------------------------------------------------------------------------------
     with cx.instance("C16.b", "T9 + T1x", "reader length constant + overhead == writer literal length; fixed readers refuse any other length; variable readers require zero remaining bytes", floor=9) as inst:
@@ -299,7 +306,17 @@ def run(cx):
         obligations += 1
         inst.site(ex, None, "extend: " + " | ".join(steps)[:200])
         want_step = "bitxor(frame::serial::crc::PARTIAL_RESULTS[cast<usize>(bitxor(Iter::next(V)@Some.0,cast<u8>(V)))],shr(V,8))"
-        if sorted(steps) != sorted(["arg1", want_step]):
+        loop_form = sorted(steps) == sorted(["arg1", want_step])
+        # the same recurrence written as a fold over the bytes: fold(iter(data), initial, |crc, &byte| T[(byte ^ crc as u8)] ^ (crc >> 8))
+        fold_form = False
+        if not steps:
+            top = show(ex.local_expr(0))
+            cls = [R.body(c) if isinstance(c, str) else c for c in R.closures_of(ex.path)]
+            if re.fullmatch(r"Iter::fold\(\[T\]::iter\(arg2\),arg1,closure:.*\)", top) and len(cls) == 1:
+                cb = show(cls[0].local_expr(0))
+                inst.site(cls[0], None, "extend (fold): " + cb[:160])
+                fold_form = cb == "bitxor(frame::serial::crc::PARTIAL_RESULTS[cast<usize>(bitxor(arg3,cast<u8>(arg2)))],shr(arg2,8))"
+        if not (loop_form or fold_form):
             inst.violation(ex.path, "extend step", "crc::extend computes %s; expected crc = (crc >> 8) ^ T[(crc as u8) ^ byte] starting from its argument" % steps)
         cp = R.body(S + "crc::compute")
         cs = show(cp.local_expr(0))
@@ -334,7 +351,7 @@ SELFTEST = [
      "expect": ["C16.d"]},
     {"name": "Frame::read accepts 4-byte inputs",
      "edits": [{"file": "src/frame/serial/mod.rs", "old": "if frame_bytes.len() < 5 {", "new": "if frame_bytes.len() < 4 {"}],
-     "expect": []},
+     "expect": ["C16.g"]},
     {"name": "micro header threshold < 64 -> <= 64",
      "edits": [{"file": "src/frame/serial/build.rs", "old": "if data_len_u16 < 64 &&", "new": "if data_len_u16 <= 64 &&"}],
      "expect": ["C16"]},
